@@ -12,6 +12,8 @@ META = dict(
          "model (tied by sampling). The ordering invariant on live sessions is additionally checked by the simulator (C01).",
     technique="Coq proof over translator-regenerated definitions + list-model invariant; differential correspondence")
 
+COQ_TARGETS = ["Props/Properties_C15.vo", "Prio/Extract_Prio.vo"]
+
 FINISH = dict(
     level="proof",
     trusted=["tools/c2v.py (C subset -> Gallina) and clang 14's JSON AST; cross-checked on every run against the compiled functions",
